@@ -1706,7 +1706,10 @@ func (p *BinaryProtocol) WriteAnyWithDesc(desc *TypeDescriptor, val interface{},
 	case BYTE:
 		v, ok := val.(byte)
 		if !ok {
-			if !cast {
+			if i8, ok8 := val.(int8); ok8 {
+				// ReadAnyWithDesc returns int8 unless byteAsUint8
+				v = byte(i8)
+			} else if !cast {
 				return errDismatchPrimitive
 			} else {
 				vv, err := primitive.ToInt64(val)
